@@ -433,7 +433,14 @@ class World:
         if x < 0.74:
             return ("dict", r.choice([INT, STR]), self.rand_type(depth - 1))
         if x < 0.78:
-            return ("tuple", tuple(self.rand_type(depth - 1) for _ in range(r.choice([1, 2, 2, 3]))))
+            t = ("tuple", tuple(self.rand_type(depth - 1) for _ in range(r.choice([1, 2, 2, 3]))))
+            if "Literal[" in render(t):
+                # fenced off: a tuple-typed variable whose items are Literal types keeps a stale narrowed type after
+                # `v = generic_call((2, 3))` (binder.assign_type erases last known values, finds the value incompatible
+                # and returns early) -- known finding with its own witness replay; its downstream effects are unbounded
+                self.excluded_lit_tuples = getattr(self, "excluded_lit_tuples", 0) + 1
+                t = ("tuple", tuple(self.atom_type() for _ in t[1]))
+            return t
         if x < 0.80:
             return ("set", r.choice([INT, STR, union([INT, STR])]))
         if x < 0.83 and self.cfg.on("lit"):
@@ -1906,10 +1913,14 @@ class StmtGen(CondGen):
         self.lab("exit:" + o)
         env.dead = True
 
-    def branch_body(self, env: Env, depth: int, focus: Var | None, can_exit: bool = True) -> None:
-        """Body of a conditional branch: probe the variable the test was about, some statements, maybe an exit."""
+    def branch_body(self, env: Env, depth: int, focus: Var | None, can_exit: bool = True, carried: str | None = None) -> None:
+        """Body of a conditional branch: probe the variable the test was about, some statements, maybe an exit.
+        `carried`: a loop-carried variable, read at the top of the body and re-assigned at its end."""
         self.ind += 1
         start = len(self.out)
+        if carried is not None and carried in env.vars:
+            cv = env.vars[carried]
+            self.emit(self.probe(cv.name, env, cv))
         if focus is not None and focus.name in env.vars and self.rnd.random() < 0.85:
             fv = env.vars[focus.name]
             self.emit(self.probe(fv.name, env, fv))
@@ -1924,6 +1935,11 @@ class StmtGen(CondGen):
                     self.lab("uses_of_narrowed")
                     self.emit(self.probe(code, env, form="use:" + fv.form))
         self.block(env, depth - 1, self.nstm(depth - 1)) if (self.rnd.random() < 0.75 or len(self.out) == start) else None
+        if carried is not None and carried in env.vars and not env.dead and not env.vars[carried].frozen:
+            cv = env.vars[carried]
+            code, ty = self.atom(self.rnd.choice(members(cv.decl)), env)
+            self.emit("%s = %s" % (cv.name, code))
+            self.set_after_assign(cv, ty if ty[0] != "lit" else lit_base(ty), env)
         if can_exit and not env.dead and self.rnd.random() < 0.22:
             self.s_exit(env)
         self.ind -= 1
@@ -1977,6 +1993,20 @@ class StmtGen(CondGen):
                 v.frozen = True
         return body
 
+    def loop_carried(self, env: Env, ws: list) -> str | None:
+        """Pick a writable union-typed variable, give it a definite value before the loop; the body reads it first and
+        re-assigns it last, so its type at the loop head is only right after a second pass over the body."""
+        cand = [n for n in ws if env.vars[n].decl[0] == "union" and all(m[0] in ("int", "str", "bool", "float", "bytes", "none", "enum", "cls", "lit") for m in env.vars[n].decl[1])]
+        if not cand or self.rnd.random() < 0.4:
+            return None
+        n = self.rnd.choice(cand)
+        v = env.vars[n]
+        code, ty = self.atom(self.rnd.choice(members(v.decl)), env)
+        self.emit("%s = %s" % (n, code))
+        self.set_after_assign(v, ty if ty[0] != "lit" else lit_base(ty), env)
+        self.lab("loop_carried_variables")
+        return n
+
     def leave_loop(self, env: Env, ws: list, body: Env) -> None:
         for n in ws:
             v = env.vars[n]
@@ -1994,6 +2024,8 @@ class StmtGen(CondGen):
             self.emit("%s: %s = %s" % (n0, render(t0), self.e(t0, env, 2)))
             srcs = [env.add(Var(n0, t0))]
         ws = self.loop_writable(env)
+        carried = self.loop_carried(env, ws)
+        srcs = [v for v in srcs if v.name != carried]
         body = self.enter_loop(env, ws)
         lv = self.fresh("x")
         newvars = []
@@ -2027,7 +2059,7 @@ class StmtGen(CondGen):
                 body.vars[s.name].frozen = True  # do not rebind/mutate the sequence being iterated... rebinding is fine, mutation is not generated on frozen
         for nv in newvars:
             body.add(nv)
-        self.branch_body(body, depth, newvars[-1], can_exit=False)
+        self.branch_body(body, depth, newvars[-1], can_exit=False, carried=carried)
         if r.random() < 0.2:
             self.emit("else:")
             e2 = env.clone()
@@ -2053,6 +2085,7 @@ class StmtGen(CondGen):
         self.emit("%s = 0" % cn)
         env.add(Var(cn, INT, frozen=True, form="counter"))
         ws = self.loop_writable(env)
+        carried = self.loop_carried(env, ws)
         body = self.enter_loop(env, ws)
         focus = None
         if r.random() < 0.5:
@@ -2066,7 +2099,7 @@ class StmtGen(CondGen):
         self.ind += 1
         self.emit("%s += 1" % cn)
         self.ind -= 1
-        self.branch_body(body, depth, focus, can_exit=False)
+        self.branch_body(body, depth, focus, can_exit=False, carried=carried)
         self.leave_loop(env, ws, body)
         self.lab("while_loops")
         self.after_loop_probe(env, ws)
@@ -2295,7 +2328,7 @@ class FullGen(StmtGen):
                 cn = self.fresh("k")
                 pat = '{"a": %s}' % cn
                 caps.append(Var(cn, m[2], frozen=True, form="match-capture"))
-                yes, no, form = m, remaining, "match-mapping"
+                yes, no, form = remaining, remaining, "match-mapping"  # mypy does not narrow the subject here
             elif mk == "list" and not any(x[0] in ("object", "proto", "tv", "seq", "vtuple", "tuple") or (x[0] == "cls" and w.classes[x[1]].flavor == "nt") for x in members(remaining)) and sum(1 for x in members(remaining) if x[0] == "list") == 1:
                 cn, cr = self.fresh("k"), self.fresh("k")
                 pat = "[%s, *%s]" % (cn, cr)
